@@ -543,9 +543,9 @@ PLANS = {
     # prop: (feature group names or None for all, layers to correspond, uses bundled?)
     "C01": dict(groups=None, corr=["interp", "gen", "opt", "optgen"], bundled=True),
     "C02": dict(groups=None, corr=["interp", "opt", "optgen", "O"], bundled=True),
-    "C03": dict(groups=["core", "bounded", "ci+builtin", "core", "bounded"], corr=["interp", "spec"], bundled=False),
-    "C04": dict(groups=["ws", "cm", "ws+cm", "mods+ws", "mods+ws+cm", "skipish", "all"], corr=["interp", "gen", "opt", "optgen", "spec"], bundled=False),
-    "C05": dict(groups=["stack", "stack+ws", "stack", "all"], corr=["interp", "gen", "opt", "optgen", "spec"], bundled=False),
+    "C03": dict(groups=["core", "bounded", "ci+builtin", "core", "bounded"], corr=["interp", "spec"], bundled=True),
+    "C04": dict(groups=["ws", "cm", "ws+cm", "mods+ws", "mods+ws+cm", "skipish", "all"], corr=["interp", "gen", "opt", "optgen", "spec"], bundled=True),
+    "C05": dict(groups=["stack", "stack+ws", "stack", "all"], corr=["interp", "gen", "opt", "optgen", "spec"], bundled=True),
     "C06": dict(groups=None, corr=["interp", "gen"], bundled=True),
     "C07": dict(groups=None, corr=["interp", "gen", "opt", "optgen"], bundled=True),
     "C08": dict(groups=None, corr=["interp"], bundled=True),
@@ -1009,6 +1009,8 @@ def _worker(job):
             signal.alarm(120)
             try:
                 eval_grammar(prop, rng, "bundled:" + gfile, gtext, None, passes, cases, out)
+                out["stats"]["bundled_grammars"] += 1
+                out["stats"]["bundled_cases"] += len(cases)
             except Timeout:
                 out["timeouts"].append({"group": "bundled:" + gfile, "grammar": gtext[:200], "passes": passes})
             finally:
